@@ -704,6 +704,10 @@ func (e *Exec) backEdge(f *Frame, li *loopInfo, latch *ssa.BasicBlock, st *State
 		f.vals[phi] = v
 	}
 	e.loopInvariant(f, li, st, cond, "inv-preserved")
+	for _, phi := range li.accum {
+		e.oblige("inv-preserved", fmt.Sprintf("loop%d.accum.%s", li.ordinal, phi.Comment), e.rootProps(), cond, e.accumInv(f.vals[phi].Term, li),
+			"automatic accumulator invariant of "+phi.Comment, "accumulator slice backed by memory allocated in the loop")
+	}
 	for phi, v := range saved {
 		f.vals[phi] = v
 	}
@@ -731,7 +735,10 @@ func (e *Exec) skolemizeGoal(goal Term) Term {
 			pos++
 			if iq, ok := byName[t]; ok && ((iq.forall && polarity > 0) || (!iq.forall && polarity < 0)) {
 				sk := e.fresh("sk", "Int")
+				saved := e.instGen
+				e.instGen = iq.gen + 1
 				inst := iq.inst(sk)
+				e.instGen = saved
 				e.noteIndexTerm(sk)
 				return inst
 			}
